@@ -235,6 +235,58 @@ def check_cache(ra, rb):
     return []
 
 
+# expected type, a template for literals that fit (k = 0..), literals of the same Python class that do not
+WIDE_RIGHT = [
+    ("tuple[int, ...]", "({k}, {k})", ['(3, "x")', '("a",)']),
+    ("tuple[int, int]", "({k}, {k})", ['(3, "x")', "(1,)", "(1, 2, 3)"]),
+    ("Sequence[int]", "({k},)", ['("a", 1)', "(None,)"]),
+    ("frozenset[int]", "frozenset({{{k}}})", ['frozenset({"a"})', 'frozenset({1, "a"})']),
+    ("Callable[[int], int]", "(lambda x: x + {k})", ["(lambda: 0)", "(lambda x, y: 0)"]),
+    ("int", "{k}", ['"a"', "1.5"]),
+    ("tuple[str, ...] | int", '("s{k}",)', ["(1,)", '("a", 1)']),
+    ("Mapping[str, int] | frozenset[str]", 'frozenset({{"s{k}"}})', ["frozenset({1})"]),
+]
+
+
+def wide_right_cases():
+    """B = a union of 10-13 hashable literals that all fit A, plus (possibly) one literal of the same Python class
+    that does not, placed first, last or in the middle.  The union must be accepted exactly when every member is."""
+    for tsrc, template, misfits in WIDE_RIGHT:
+        for n in (9, 10, 12):
+            fits = [template.format(k=k) for k in range(n)]
+            for mis in [None] + misfits:
+                for pos in ("first", "last", "middle"):
+                    if mis is None:
+                        if pos == "first":
+                            yield tsrc, fits + [template.format(k=99)]
+                        continue
+                    if pos == "first":
+                        yield tsrc, [mis] + fits
+                    elif pos == "last":
+                        yield tsrc, fits + [mis]
+                    else:
+                        yield tsrc, fits[:5] + [mis] + fits[5:]
+
+
+def check_wide_right(tsrc, members, col=None):
+    ns = dict(NS)
+    a = G.build(("rt", tsrc))
+    vals = [V.KnownValue(eval(m, ns)) for m in members]
+    b = V.MultiValuedValue(vals)
+    acc = accepts(a, b, Checker())
+    c = Checker()  # one more for all members: they are distinct values
+    each = [accepts(a, v, c) for v in vals]
+    if col is not None:
+        col.case(nontrivial_id=("wide-right", tsrc, tuple(members)), label=["route:wide-right", "accepted" if acc else "rejected"])
+    if acc != all(each):
+        bad = [m for m, e in zip(members, each) if not e]
+        return [(f"union-right|wide|{tsrc.split('[')[0]}",
+                 f"{tsrc} <- a union of {len(members)} literals is {'accepted' if acc else 'rejected'} although member by member "
+                 f"{'these are rejected: ' + ', '.join(bad) if bad else 'every literal is accepted'} (members: {', '.join(members)})",
+                 {"wide_right": tsrc, "members": members})]
+    return []
+
+
 HISTORY_EXPECTED = ["HasX", "SupportsClose", "Pops[int]", "Pops[str]", "Iterable[int]", "Sequence[str]", "Sized", "Container[int]",
                     "SupportsAbs[int]", "Mapping[str, int]", "Hashable", "Callable[[int], int]", "TD", "list[int]"]
 HISTORY_EXTRA_OBJECTS = ["types.SimpleNamespace(x=1)", "types.SimpleNamespace(y=1)", "types.SimpleNamespace(x='s')", "[1, 2]", "['a']", "[]",
@@ -419,6 +471,7 @@ def shards(tier, seed):
     out += [{"mode": "td-pairs", "index": i, "of": 8} for i in range(8)]
     out.append({"mode": "user-generics"})
     out += [{"mode": "history", "index": i, "of": 4} for i in range(4)]
+    out.append({"mode": "wide-right"})
     out += [{"mode": "program", "index": i, "modules": 5 if tier == "quick" else 150} for i in range(4 if tier == "quick" else 16)]
     return out
 
@@ -426,6 +479,11 @@ def shards(tier, seed):
 def run_shard(spec):
     col = runner.Collector(spec)
     seed = runner.mix_seed(spec["seed"], ID, spec["name"])
+    if spec["mode"] == "wide-right":
+        for tsrc, members in wide_right_cases():
+            for key, what, case in check_wide_right(tsrc, members, col):
+                col.fail(key, what, case)
+        return col.result()
     if spec["mode"] == "history":
         for i, tsrc in enumerate(HISTORY_EXPECTED):
             if i % spec["of"] == spec["index"]:
@@ -516,6 +574,8 @@ def run_shard(spec):
 
 
 def replay_all(case):
+    if "wide_right" in case:
+        return [{"key": k, "what": w[:500], "case": case} for k, w, _ in check_wide_right(case["wide_right"], case["members"])]
     if "history" in case:
         return [{"key": k, "what": w[:500], "case": case} for k, w, _ in check_history(case["history"], case["index"])]
     if case.get("route") == "program":
